@@ -35,6 +35,9 @@ Gen<Case> makeGraphGen(const Cfg &cfg) {
     int subsets = (int)cfgInt(cfg, "subsets", 0);
     bool conc = cfgInt(cfg, "conc", 0) != 0;
     int removals = (int)cfgInt(cfg, "removals", 12);
+    int bigPct = (int)cfgInt(cfg, "big_pct", 0);       // percentage of cases with 66..100 vertices and a vertex of degree > 64
+    int wrapPermille = (int)cfgInt(cfg, "wrap_permille", 0); // cases that repeat a search after 2^8-1 / 2^16-1 other searches
+    bool fresh = cfgInt(cfg, "fresh", 0) != 0; // every case in a forked child, several classes in a generated order
     int forced = (int)cfgInt(cfg, "forced", 0); // percentage of forced (duplicate-creating) adds // percentage of `r` (removeEdge) entries among the edge ops
     return gen::exec([=]() {
         std::string cl = *gen::resize(kNominalSize, gen::elementOf(classes));
@@ -48,12 +51,25 @@ Gen<Case> makeGraphGen(const Cfg &cfg) {
             if (sp != std::string::npos)
                 c.set(kv.substr(0, sp), kv.substr(sp + 1));
         }
-        int n = *gen::resize(kNominalSize, gen::weightedOneOf<int>({{1, gen::just(nmin)}, {6, uni(nmin, std::min(nmax, 5) + 1)}, {4, uni(nmin, nmax + 1)}}));
+        int n = *gen::resize(kNominalSize, gen::weightedOneOf<int>({{1, gen::just(nmin)}, {6, uni(nmin, std::max(nmin, std::min(nmax, 5)) + 1)}, {4, uni(nmin, nmax + 1)}}));
+        bool big = bigPct > 0 && *uni(0, 100) < bigPct;
+        if (big)
+            n = *uni(66, 101);
         c.set("n", S(n));
+        if (wrapPermille > 0) {
+            int w = *uni(0, 1000);
+            if (w < wrapPermille)
+                c.set("wrap_calls", w * 8 < wrapPermille ? "65536" : "256");
+        }
+        if (fresh) {
+            c.set("fresh", "1");
+            c.set("fresh_order", S(*uni(0, 6)));
+        }
         if (conc) {
             c.set("threads", S(*wel({{1, 2}, {2, 4}, {1, 8}})));
             c.set("rounds", S(*uni(1, 4)));
             c.set("orderkey", S(*uni(0, 50)));
+            c.set("churn", S(*wel({{8, 0}, {3, 40}, {2, 300}, {2, 20000}, {1, 70000}})));
         }
         if (pads && *uni(0, 4) == 0) {
             c.set("pad_front", S(*uni(0, 3)));
@@ -77,12 +93,30 @@ Gen<Case> makeGraphGen(const Cfg &cfg) {
             return o;
         });
         double density = *gen::resize(kNominalSize, gen::element(0.15, 0.4, 1.0, 2.5));
+        if (big)
+            density = 0.02;
         c.ops = *gen::scale(density * nn * nn / 40.0, gen::container<std::vector<Op>>(eg));
+        if (big) {
+            // a vertex of degree > 64 (anywhere in the index range, so that it has smaller- and larger-indexed neighbours)
+            int hubs = *uni(1, 3);
+            for (int h = 0; h < hubs; ++h) {
+                Op o;
+                o.kind = "hub";
+                o.a = {S(*uni(0, nn)), S(*uni(0, nn)), S(*uni(65, nn + 1)), S(*uni(0, xmax))};
+                c.ops.insert(c.ops.begin() + *uni(0, (int)c.ops.size() + 1), o);
+            }
+        }
         for (int k = 0; k < subsets; ++k) {
             Op o;
             o.kind = "s";
             o.a = {S(*uni(0, 1 << std::min(nn, 20)))};
             c.ops.push_back(o);
+            if (nn > 20) {
+                Op q;
+                q.kind = "sr";
+                q.a = {S(*uni(0, nn)), S(*wel({{1, 0}, {3, nn}, {3, nn - 1}, {3, *uni(0, nn + 1)}})), S(*wel({{4, 1}, {1, 2}, {1, 3}}))};
+                c.ops.push_back(q);
+            }
         }
         return c;
     });
